@@ -18,7 +18,7 @@ from mc.par import pmap
 from mc.report import Report
 
 LEVEL = "fault_enumeration"
-RULE = ("configuration grid (sampler x schedule x checkpoint cadence x n_final_samples x preconditioning x seed) x every "
+RULE = ("configuration grid (sampler x schedule x checkpoint cadence x n_final_samples [with / without its own n_final_steps] x preconditioning x seed) x every "
         "user-callable call index k of the reference run (fault = exception raised inside the k-th likelihood/prior call) x "
         "resume route {bytes, dict (unpickled), the live dict object the callback received - for every crash point -, file path}; plus the resume-from-file constructor route with a real zuko flow; thorough "
         "adds a second fault inside every resumed run. One evaluation = one faulted or resumed run of the real sampler; "
@@ -169,6 +169,12 @@ def configs(tier, seed):
                         continue
                 out.append({"sampler": sampler, "N": 8, "opts": dict(opts), "cadence": cadence, "n_final": nfinal,
                             "precond": precond, "seed": sd, "sched": sname, "_tier": tier})
+    # a final stage with its own number of kernel steps (sampler_kwargs["n_final_steps"])
+    for sampler in ("smc", "emcee_smc"):
+        for sname in ("adaptive", "fixed3") if tier == "thorough" else ("adaptive",):
+            for cadence in (1, 2) if tier == "thorough" else (1,):
+                out.append({"sampler": sampler, "N": 8, "opts": dict(SCHEDULES[sname]), "cadence": cadence, "n_final": 9, "n_final_steps": 4,
+                            "precond": "none", "seed": 0, "sched": sname, "_tier": tier})
     if tier == "thorough":
         for sname in ("adaptive", "fixed3"):
             out.append({"sampler": "smc", "N": 8, "opts": dict(SCHEDULES[sname]), "cadence": 1, "n_final": None,
